@@ -271,7 +271,9 @@ class SoulSeekClient:
 
         try:
             await command.send(self)
-        except Exception:
+        except BaseException:
+            # Also when cancelled while sending: don't leave the expected
+            # response registered
             if response and response_future:
                 response_future.cancel()
             raise
